@@ -8,6 +8,7 @@ import (
 	"os"
 	"strings"
 	"syscall"
+	"time"
 )
 
 func init() {
@@ -328,7 +329,23 @@ func cmdTable(args []string) int {
 		rec.Emit("scenario", a, "", nil, nil, nil, false)
 		rec.Flush()
 		d := NewTD(rec, sc)
-		if d.Run() == "stuck" {
+		// watchdog: the external ready-group library can deadlock (recursive read lock against a writer); a driver that
+		// makes no progress for a minute gives up on the whole batch instead of hanging the check
+		doneCh := make(chan string, 1)
+		go func() { doneCh <- d.Run() }()
+		var outcome string
+		select {
+		case outcome = <-doneCh:
+		case <-time.After(150 * time.Second):
+			a := mkArgs()
+			a.Note = "driver made no progress for 150 s (engine call did not return)"
+			rec.Emit("hang", a, "", nil, nil, nil, false)
+			rec.Close()
+			syscall.Dup2(realOut, 1)
+			fmt.Fprintf(os.NewFile(uintptr(realOut), "stdout"), "{\"scenarios\":%d,\"stuck\":%d,\"lines\":%d,\"hung\":1}\n", done, stuck, rec.lines)
+			os.Exit(0)
+		}
+		if outcome == "stuck" {
 			stuck++
 		}
 		done++
